@@ -183,12 +183,82 @@ def judge(ck, flex, scratch, cases, results, stats):
                          no_input=kind in ('harness-error', 'driver-error'))
 
 
+YYLMAX_SPEC = r"""%%option noyywrap nounput noinput array yylmax=%(K)d %(opts)s
+%%%%
+a+	{ printf("A %%d\n", (int) %(leng)s); }
+b	{ printf("B %%d\n", (int) %(leng)s); %(more)s }
+\n	{ printf("N %%d\n", (int) %(leng)s); }
+%%%%
+int main(int argc, char **argv)
+{
+    FILE *f = fopen(argv[1], "rb");
+    %(run)s
+    return 0;
+}
+"""
+
+
+def yylmax_probe(ck, flex, scratch):
+    """%array: a token of yyleng (incl. the yymore prefix) >= YYLMAX must end in the documented fatal error, yyleng = YYLMAX - 1 must
+    scan; no write beyond yytext either way (boundary of the guard in YY_DO_BEFORE_ACTION)."""
+    wd = scratch.sub("yylmax")
+    rng = Rng(ck.seed).fork("yylmax")
+    n = bad = 0
+    for be in ('nr', 'r', 'c99'):
+        for use_more in (False, True):
+            K = rng.pick([8, 13, 32, 100])
+            if be == 'nr':
+                opts, leng, more, run_ = "", "yyleng", "yymore();", "yyin = f; while (yylex()) ; yylex_destroy();"
+            elif be == 'r':
+                opts, leng, more = "reentrant", "yyleng", "yymore();"
+                run_ = "yyscan_t s; yylex_init(&s); yyset_in(f, s); while (yylex(s)) ; yylex_destroy(s);"
+            else:
+                opts, leng, more = 'emit="c99"' + (" yymore" if use_more else ""), "yyget_leng(yyscanner)", "yymore(yyscanner);"
+                run_ = "yyscan_t s; yylex_init(&s); yyset_in(f, s); while (yylex(s)) ; yylex_destroy(s);"
+            text = YYLMAX_SPEC % {'K': K, 'opts': opts, 'leng': leng, 'more': more if use_more else "", 'run': run_}
+            tag = "%s%d" % (be, int(use_more))
+            with open(os.path.join(wd, tag + ".l"), "w") as f:
+                f.write(text)
+            rc, out, err = scanner.run_flex(flex, tag + ".l", tag + ".c", ["-8"], wd)
+            if rc != 0:
+                ck.violation("yylmax-probe-flex:" + tag, "flex refuses the yylmax probe: " + err.decode(errors='replace')[:200], {'spec': text})
+                continue
+            rc, out, err = scanner.compile_c(tag + ".c", tag + ".exe", wd, extra=SAN + ["-I" + os.path.dirname(flex)], backend=be)
+            if rc != 0:
+                ck.violation("yylmax-probe-cc:" + tag, "yylmax probe does not compile: " + err.decode(errors='replace')[:300], {'spec': text})
+                continue
+            for total in (K - 2, K - 1, K, K + 1):
+                for prefix in ([0] if not use_more else [0, 1, 3]):
+                    if prefix >= total:
+                        continue
+                    data = b"b" * prefix + b"a" * (total - prefix) + b"\n"
+                    inp = os.path.join(wd, "in.bin")
+                    with open(inp, "wb") as f:
+                        f.write(data)
+                    rc, out, err = run([os.path.join(wd, tag + ".exe"), inp], timeout=20, env=ENV)
+                    errs = err.decode(errors="replace")
+                    n += 1
+                    rep = sanitizer_report(errs)
+                    fatal = "token too large, exceeds" in errs
+                    want_fatal = total >= K
+                    got = out.decode(errors="replace").split()
+                    ok = (not rep) and (fatal == want_fatal) and (want_fatal or ("A %d" % total) in out.decode(errors="replace"))
+                    if not ok:
+                        bad += 1
+                        ck.violation("yylmax-boundary:%s:%d" % (tag, total - K),
+                                     "%%array, yylmax=%d, back end %s, scanner %s yymore(): token of %d bytes (yymore prefix %d): %s; rc=%s, fatal message %s (expected %s)" % (
+                                         K, be, "using" if use_more else "without", total, prefix, rep or "no sanitizer report", rc, fatal, want_fatal),
+                                     {'spec': text, 'input_hex': data.hex(), 'flex_opts': ["-8"], 'backend': be, 'cc': "gcc " + " ".join(SAN)})
+    return {"yylmax_boundary_probes": n, "yylmax_boundary_wrong": bad}
+
+
 def main(tier):
     engine._orig_judge13 = engine.judge
     engine.judge = judge
     try:
         def post(ck, flex, scratch, cases, results, stats):
-            return {"ledger_events_checked": stats.get('ledger_events', 0),
+            extra = yylmax_probe(ck, flex, scratch)
+            return {**extra, "ledger_events_checked": stats.get('ledger_events', 0),
                     "sanitizers": "AddressSanitizer + LeakSanitizer + UndefinedBehaviorSanitizer (gcc 12)"}
         return engine.standard_main(
             PROP, tier, "Properties_C13.v", build_cases,
